@@ -186,6 +186,10 @@ def steps(W):
                     nf.insert(pos, {"name": "addedb", "type": "bytes", "default": "ÿ"})
                     emit("add-bytes-field-with-default", path, dict(node, fields=nf))
                     nf = copy.deepcopy(fs)
+                    nf.insert(pos, {"name": "addedfx2", "type": "AddedFx", "default": "zz"})
+                    nf.insert(pos, {"name": "addedfx", "type": {"type": "fixed", "name": "AddedFx", "size": 2}, "default": "\u00ff\u0000"})
+                    emit("add-fixed-fields-by-name-with-defaults", path, dict(node, fields=nf))
+                    nf = copy.deepcopy(fs)
                     nf.insert(pos, {"name": "addedb0", "type": "bytes", "default": ""})
                     nf.insert(pos, {"name": "addedl", "type": {"type": "array", "items": "string"}, "default": []})
                     nf.insert(pos, {"name": "addedm", "type": {"type": "map", "values": "int"}, "default": {}})
@@ -238,6 +242,18 @@ def steps(W):
 
 def units(tier):
     return list(range(len(writer_schemas(tier))))
+
+
+class SizedBlocks:
+    """Layout for the independent encoder: every block in negative-count + byte-size form, two items per block."""
+
+    def blocks(self, n):
+        out = []
+        while n > 0:
+            c = min(2, n)
+            out.append((c, True))
+            n -= c
+        return out
 
 
 def _scribble(v):
@@ -310,6 +326,7 @@ def run_pair(fa, res, W, wnode, wdefs, label, R, data, seen, tier):
         note_case(info)
         v, idx = conform.plan(wnode, wdefs, d)
         payload = binary.encode(wnode, wdefs, v, conform.Indices(idx))
+        sized = binary.encode(wnode, wdefs, v, conform.Indices(idx), SizedBlocks())
         tv = rres.tag(wnode, wdefs, v, conform.Indices(idx))
         if identical:
             want = ("value", v)
@@ -317,7 +334,16 @@ def run_pair(fa, res, W, wnode, wdefs, label, R, data, seen, tier):
             want = rres.outcome(wnode, wdefs, rnode, rdefs, tv)
             if want[0] == "skip":
                 continue
-        for how, kind, got in read_both(fa, W, R, payload, d):
+        results = read_both(fa, W, R, payload, d)
+        if sized != payload:
+            # the same value as another specification-valid encoding: blocks announced by negative count + byte size
+            try:
+                results.append(("schemaless-sized-blocks", "value", fa.schemaless_reader(io.BytesIO(sized), copy.deepcopy(W), copy.deepcopy(R))))
+            except Exception as e:
+                from fastavro._read_common import SchemaResolutionError
+
+                results.append(("schemaless-sized-blocks", "resolution-error" if isinstance(e, SchemaResolutionError) else f"other:{type(e).__name__}", str(e)[:150]))
+        for how, kind, got in results:
             res.evals += 1
             ok = True
             if want[0] == "value":
